@@ -682,6 +682,27 @@ fn find_identifier_end(input: &str, offset: usize) -> usize {
     }
 }
 
+/// Verification hook: call a specific identifier-end routine regardless of run-time CPU selection.
+/// `which`: 0 = generic, 1 = AVX2 (`None` if unsupported on this CPU), other = the selected one.
+#[cfg(pasfmt_verif)]
+pub fn verif_find_identifier_end(which: u8, input: &str, offset: usize) -> Option<usize> {
+    match which {
+        0 => Some(find_identifier_end_generic(input, offset)),
+        #[cfg(target_arch = "x86_64")]
+        1 => {
+            if is_x86_feature_detected!("avx2") {
+                // SAFETY: the required intrinsics were just checked to be supported.
+                Some(unsafe { find_identifier_end_avx2(input, offset) })
+            } else {
+                None
+            }
+        }
+        #[cfg(not(target_arch = "x86_64"))]
+        1 => None,
+        _ => Some(find_identifier_end(input, offset)),
+    }
+}
+
 fn count_bytes_in_set(input: &str, offset: usize, set: &[bool; 256]) -> usize {
     count_matching(input, offset, |b| set[*b as usize])
 }
